@@ -24,6 +24,8 @@ Inductive obs :=
 | OTimeout (evs : list ev)
 | OCancel (s : nat)     (* the context of the parked sender's call was cancelled *)
 | OAbandon (s : nat)    (* a parked call returned with an error without its event ever passing the gate *)
+| OFault                (* the sink's next Write fails *)
+| ODeploy               (* HandleDeploy on the live operator: same runners, fresh storage *)
 | OStuck (what : N).
 Inductive case := AlignCase (n : nat) (maxsize : N) (delay : bool) (trace : list obs).
 
@@ -109,7 +111,12 @@ Fixpoint replay (c : cfg) (x : st) (tr : list obs) : list N :=
           | None => [6]
           | Some x' =>
               let mevs := step_evs x x' in
-              (if Bool.eqb ok (last_ok x x') then [] else [3]) ++
+              (* the reply: a rejected barrier, or the sink's error out of a flush (which a barrier's handler ignores) *)
+              let mok := match nth_error (modes x) s with
+                         | Some (Passed (IBar _)) => last_ok x x'
+                         | _ => negb (errored (dt x) (dt x'))
+                         end in
+              (if Bool.eqb ok mok then [] else [3]) ++
               (if list_eqb ev_eqb (filter is_call evs) (filter is_call mevs) then [] else [4]) ++
               (if list_eqb ev_eqb (filter (fun e => negb (is_call e)) evs) (filter (fun e => negb (is_call e)) mevs)
                   && list_eqb ev_kind_eqb evs mevs then [] else [5]) ++
@@ -124,6 +131,8 @@ Fixpoint replay (c : cfg) (x : st) (tr : list obs) : list N :=
           end
       | OCancel s => match step c x (Cancel s) with None => [6] | Some x' => replay c x' tr' end
       | OAbandon _ => [8]
+      | OFault => match step c x Fault with None => [6] | Some x' => replay c x' tr' end
+      | ODeploy => match step c x Deploy with None => [6] | Some x' => replay c x' tr' end
       | OStuck _ => [7]
       end
   end.
@@ -137,7 +146,7 @@ Record sp := mkSp {
   cuts : list (option nat);        (* per sender: index of its accepted, not yet checkpointed barrier *)
   cur : option N;                  (* id of the checkpoint in progress (first accepted barrier) *)
   called : list aitem;             (* entries handed to the handler so far *)
-  relw : list bool }.              (* per sender: waiting for release after a completion *)
+  relw : list bool }.              (* [true] while an injected sink fault is armed and not yet consumed by a handler call *)
 
 Definition nth_l {A} (l : list (list A)) (s : nat) : list A := nth s l [].
 Definition ev_id_of (it : item) : list N := match it with IEv id _ _ => [id] | _ => [] end.
@@ -162,6 +171,7 @@ Definition wm_bound (p : sp) : N :=
                           last_wm (match nth s (cuts p) None with Some k => firstn k its | None => its end))
                 (seq 0 (length (deliv p)))).
 Definition memN (x : N) (l : list N) : bool := existsb (N.eqb x) l.
+Definition fault_armed (p : sp) : bool := match relw p with true :: _ => true | _ => false end.
 Definition all_cut (p : sp) : bool := forallb (fun o => match o with Some _ => true | None => false end) (cuts p).
 
 Definition spec_evs (p : sp) (evs : list ev) : sp * list N :=
@@ -204,15 +214,22 @@ Fixpoint spec (p : sp) (tr : list obs) : list N :=
                                           (match cur p with None => Some cid | some => some end) (called p) (relw p)
                           else mkSp (deliv p) nh (cuts p) (cur p) (called p) (relw p) in
                 (p1, if Bool.eqb ok should then [] else [13])
-            | _ => (mkSp (deliv p) nh (cuts p) (cur p) (called p) (relw p), if ok then [] else [13])
+            | _ => (mkSp (deliv p) nh (cuts p) (cur p) (called p) (relw p),
+                    (* an error reply to anything but a barrier is only the sink's injected error out of a flush *)
+                    if ok then [] else if fault_armed p && existsb is_call evs then [] else [13])
             end in
           let had_all := all_cut p1 in
           let '(p2, cs) := spec_evs p1 evs in
+          let p2 := if existsb is_call evs then mkSp (deliv p2) (nhand p2) (cuts p2) (cur p2) (called p2) [] else p2 in
           c13 ++ cs ++
           (* every sender's barrier accepted, so the checkpoint must have been taken in this very action *)
           (if had_all && all_cut p2 then [16] else []) ++
           spec p2 tr'
       | OTimeout evs => let '(p2, cs) := spec_evs p evs in cs ++ spec p2 tr'
+      | OFault => spec (mkSp (deliv p) (nhand p) (cuts p) (cur p) (called p) [true]) tr'
+      | ODeploy =>  (* a new deployment: nothing delivered, nothing applied, no checkpoint in progress *)
+          let n := length (deliv p) in
+          spec (mkSp (repeat [] n) (repeat O n) (repeat None n) None [] (relw p)) tr'
       | OEarlyWake _ => 14 :: spec p tr'
       | OAbandon s =>  (* the gated event was given up: it counts as never delivered *)
           let its := nth_l (deliv p) s in
